@@ -52,7 +52,7 @@ CHECKS["C02"] = {
 
 CHECKS["C06"] = {
     "level": "exploration",
-    "jobs": [J("typedirected", "c06", "TestTypeDirected", 4000, 100000, 12)],
+    "jobs": [J("typedirected", "c06", "TestTypeDirected", 4000, 100000, 12), J("lazyretry", "c06", "TestLazyRetry", 800, 15000, 4)],
     "assumptions": [
         "func:\"M,returns=..\" values are drawn from plain non-numeric strings (result comparison after the container's literal parsing is then plain string equality)",
         "which of several equally admissible components a single-valued point receives is not asserted here (C08/C10)",
@@ -201,6 +201,7 @@ CHECKS["C16"] = {
         J("value", "c16", "TestValue", 3000, 80000, 8),
         J("prefix", "c16", "TestPrefix", 800, 20000, 4),
         J("wire", "c16", "TestWire", 600, 10000, 2),
+        J("retryafterset", "c16", "TestRetryAfterSet", 800, 10000, 2),
     ],
     "assumptions": [
         "configured values contain only complete placeholders; defaults are drawn from text the container's default normalisation leaves unchanged; empty keys are not generated (Get(\"\") returns the whole document)",
